@@ -15,8 +15,10 @@ def add(run, tier):
     import contracts.baseunparser as cb
     bm = importlib.import_module('calmjs.parse.unparsers.base')
     pm = importlib.import_module('calmjs.parse.parsers.es5')
+    # ... the Dispatcher (contracts/dispatcher.py: how a definition becomes the runners the walk executes; finite scenarios)
     # ... and the walk every printer drives (contracts/unparse_walk.py): rule chunks are forwarded in order, none dropped or repeated,
     # layout markers are resolved exactly between the two text chunks they stand between
     import contracts.unparse_walk as cw
+    import contracts.dispatcher as cdisp
     wm = importlib.import_module('calmjs.parse.unparsers.walker')
-    verify_functions(run, [c for c in cb.build(bm, pm) if c.funcname.startswith('BaseUnparser.')] + cw.build(wm), {}, {}, tier=tier)
+    verify_functions(run, [c for c in cb.build(bm, pm) if c.funcname.startswith('BaseUnparser.')] + cw.build(wm) + cdisp.build(wm), {}, {}, tier=tier)
